@@ -251,7 +251,7 @@ def h_eq(a: bytes, b: bytes, ia: int, ib: int, same_type: bool) -> bool:
 TOK = ["text", "application", "x-a.b+c"]
 SUB = ["plain", "octet-stream", "x-traceback"]
 PNAME = ["charset", "language", "x"]
-PVAL = ["utf8", "", "a b", "a;b", "a=b", "a,b", "é", "python", "8"]
+PVAL = ["utf8", "", "a b", "a;b", "a=b", "a,b", "é", "python", "8", "UTF-8", "Shift_JIS", "X y"]
 
 
 def run_ctype(t, s, npar, n0, v0, n1, v1):
@@ -277,7 +277,7 @@ def run_ctype(t, s, npar, n0, v0, n1, v1):
 def h_ctype(t: int, s: int, npar: int, n0: int, v0: int, n1: int, v1: int) -> bool:
     """
     pre: 0 <= t < 3 and 0 <= s < 3 and 0 <= npar <= 2 and 0 <= n0 < 3 and 0 <= n1 < 3
-    pre: 0 <= v0 < 9 and 0 <= v1 < 9
+    pre: 0 <= v0 < 12 and 0 <= v1 < 12
     post: _
     """
     v = dict(t=ch.sel("t", t, 3), s=ch.sel("s", s, 3), npar=ch.sel("npar", npar, 3))
@@ -381,7 +381,7 @@ HARNESSES = [
             rule="non-trivial = some byte present; distinct by (same_type, equal, lengths)", sym=("a", "b")),
     Harness("ctype", h_ctype, lambda tier: [({"t": t}, 600) for t in range(3)],
             bounds={"quick": "type in {text, application, x-a.b+c} x subtype in 3 x 0..2 parameters named "
-                             "charset/language/x with values from {utf8, '', 'a b', 'a;b', 'a=b', 'a,b', e-acute, python, 8}"},
+                             "charset/language/x with values from {utf8, '', 'a b', 'a;b', 'a=b', 'a,b', e-acute, python, 8, UTF-8, Shift_JIS, 'X y'}"},
             rule="non-trivial = at least one parameter",
             fidelity=lambda seed: [(0, 0, 1, 0, v, 0, 0) for v in range(len(PVAL))],
             observe=lambda *a: (lambda o: None if o is None else o["problems"])(run_ctype(*a)),
